@@ -571,7 +571,10 @@ class SymReal(SymNum):
         raise TypeError("float() of a symbolic real")
 
     def __hash__(self):
-        raise TypeError("hash of a symbolic real")
+        # structural: the same term hashes (and compares) equal; two different terms that happen to be equal in
+        # value land in different buckets - an under-approximation of dict/set hits, only relevant to code that
+        # keys containers by symbolic reals (the repository does not)
+        return hash(("symreal", z3.simplify(self.t).get_id()))
 
     def __round__(self, nd=None):
         """round() as a monotone function within half a unit of its argument
